@@ -537,17 +537,32 @@ func init() {
 			cfg.PMapCall = 60
 			cfg.SrcFor = vrun.ProbeSrc(c.BuildDir)
 			p := pgen.Generate(c.Seed*733+int64(i), cfg)
+			nRuns := 2
+			if i%3 == 1 {
+				// skeleton 20: forks keyed by the keys of run-time typed maps (six
+				// keys), run four times; the order of the forks is compared too
+				p = pgen.Template(20, c.Seed*733+int64(i), cfg)
+				nRuns = 4
+			}
 			if _, _, err := compileProgram(p, filepath.Join(c.WorkDir, "e2e-compile")); err != nil {
 				os.RemoveAll(filepath.Join(c.WorkDir, "e2e-compile"))
 				continue
 			}
 			os.RemoveAll(filepath.Join(c.WorkDir, "e2e-compile"))
-			var listings [2]string
-			var invs [2]map[string]string
+			var listings [4]string
+			var invs [4]map[string]string
+			var forkOrder [4]string
 			ok := true
-			for k := 0; k < 2; k++ {
+			for k := 0; k < nRuns; k++ {
 				dir := filepath.Join(c.WorkDir, fmt.Sprintf("e2e-%d-%d", i, k))
-				cs, err := vrun.NewCase(c.BuildDir, dir, p, func(s *pgen.Spec) { s.KeyPool = cfg.KeyPool; s.Seed = 1 })
+				cs, err := vrun.NewCase(c.BuildDir, dir, p, func(s *pgen.Spec) {
+					s.KeyPool = cfg.KeyPool
+					s.Seed = 1
+					if nRuns == 4 {
+						s.LenChoices = []int{6}
+						s.PNull = 0
+					}
+				})
 				if err != nil {
 					ok = false
 					break
@@ -575,6 +590,7 @@ func init() {
 					}
 				}
 				listings[k] = sb.String()
+				forkOrder[k] = finalStateForkOrder(filepath.Join(cs.PsDir, "_finalstate"), cs.PsDir)
 				os.RemoveAll(dir)
 			}
 			if !ok {
@@ -583,6 +599,18 @@ func init() {
 			}
 			e2e++
 			c.Eval(1)
+			for k := 1; k < nRuns; k++ {
+				if forkOrder[k] != forkOrder[0] {
+					c.Violate("C10:e2e:fork-order-differs", "the order of a node's forks in _finalstate differs between runs of the same program: "+firstDiff(forkOrder[0], forkOrder[k]),
+						map[string]interface{}{"files": p.Print()})
+					break
+				}
+				if k >= 2 && listings[k] != listings[0] {
+					c.Violate("C10:e2e:directory-listing-differs", "runs of the same program produced different directory listings: "+firstDiff(listings[0], listings[k]),
+						map[string]interface{}{"files": p.Print()})
+					break
+				}
+			}
 			if listings[0] != listings[1] {
 				c.Violate("C10:e2e:directory-listing-differs", "two runs of the same program produced different directory listings: "+firstDiff(listings[0], listings[1]),
 					map[string]interface{}{"files": p.Print()})
@@ -596,6 +624,37 @@ func init() {
 		}
 		c.Set("e2e_program_pairs_compared", e2e)
 	})
+}
+
+// finalStateForkOrder lists, node by node, the fork directories in the order
+// in which _finalstate records the node's forks.
+func finalStateForkOrder(path, psdir string) string {
+	b, err := os.ReadFile(path)
+	if err != nil {
+		return "<no _finalstate>"
+	}
+	var nodes []struct {
+		Fqname string `json:"fqname"`
+		Forks  []struct {
+			Index    int `json:"index"`
+			Metadata struct {
+				Path string `json:"path"`
+			} `json:"metadata"`
+		} `json:"forks"`
+	}
+	if json.Unmarshal(b, &nodes) != nil {
+		return "<unreadable _finalstate>"
+	}
+	var lines []string
+	for _, n := range nodes {
+		var fs []string
+		for _, f := range n.Forks {
+			fs = append(fs, fmt.Sprintf("%d:%s", f.Index, filepath.Base(f.Metadata.Path)))
+		}
+		lines = append(lines, strings.TrimPrefix(n.Fqname, "ID.")+" "+strings.Join(fs, " "))
+	}
+	sort.Strings(lines)
+	return strings.Join(lines, "\n")
 }
 
 // diffContext extracts a stable description of where two texts differ
